@@ -10,6 +10,7 @@ mod hist;
 mod hooks;
 mod kf;
 mod model;
+mod mr;
 mod observe;
 mod props;
 mod runner;
@@ -26,6 +27,7 @@ macro_rules! dispatch {
             "C01" => runner::$f::<props::c01::P>($($arg),*),
             "C02" => runner::$f::<props::c02::P>($($arg),*),
             "C05" => runner::$f::<props::c05::P>($($arg),*),
+            "C06" => runner::$f::<props::c06::P>($($arg),*),
             "C08" => runner::$f::<props::c08::P>($($arg),*),
             "C09" => runner::$f::<props::c09::P>($($arg),*),
             "C17" => runner::$f::<props::c17::P>($($arg),*),
